@@ -142,6 +142,16 @@ def o161(ctx):
             for A in axes[-2:]:
                 env[A.sym.args[0]] = float(rng.integers(0, int(tm.evaluate(A.n, env))))
         envs.append(env)
+    # the documented range of pixel sizes starts at 0.5 A: sub-Angstrom pixels, at the highest frequency of the grid (the corner component
+    # N/2 on both axes, f > 0.5 1/A) and at a low one
+    for j, px_ in enumerate((0.5, 0.55, 0.7, 0.9, 0.99, 1.0, 1.01, 2.0)):
+        for corner in (True, False):
+            env = dict(envs[(3 * j + 1) % len(envs)])
+            env["pixel_size"] = px_
+            for A in axes[-2:]:
+                n_ = int(tm.evaluate(A.n, env))
+                env[A.sym.args[0]] = float(n_ // 2) if corner else float(min(1 + j % 3, n_ - 1))
+            envs.append(env)
     v = tm.equivalent(filt.gain, want, n=len(envs), extra_envs=envs, tol=1e-9, seed_tag=Q, need=40)
     ctx.count(60, {"specified gain": "exp(-dose_i/(2*(0.245*f^-1.665+2.81))), f from signed FFT frequencies", "equal": bool(v),
                    "points": v.points})
@@ -192,4 +202,4 @@ def _obligations():
 
 
 def obligations():
-    return _obligations() + [labels_obligation("C16"), selectors_obligation("C16"), effects_obligation("C16"), plumbing_obligation("C16"), overrides_obligation("C16"), options_obligation("C16")]
+    return _obligations() + [labels_obligation("C16"), selectors_obligation("C16"), effects_obligation("C16"), plumbing_obligation("C16"), overrides_obligation("C16"), options_obligation("C16"), handlers_obligation("C16")]
